@@ -373,7 +373,7 @@ class TraceRun:
         if isinstance(ctx, w.branching.BranchingValues):
             for nm, v in ctx.vals.items():
                 lc = w.lc_of(v)
-                self.tracked[nm] = (lc.value if lc is not None else v)
+                self.tracked[nm] = snapshot_values(v, w.lc_of)
                 if lc is not None:
                     self.finals["_." + nm] = (lc.value, W.canon_lc(lc.lc.lc, rec.p))
             self.open_blocks = len(ctx.stack)
